@@ -53,6 +53,10 @@ ObsMismatch(e, exp) ==
                   ELSE "obs:is_only_naked"
         ELSE IF exp.ordered /\ o.contains_total # exp.contains_total THEN "obs:contains_total"
         ELSE IF exp.ordered /\ o.contains_some # exp.contains_some THEN "obs:contains_some"
+        \* zero entries are immaterial for every observer, also where its answer is otherwise not specified
+        ELSE IF o.contains_total # o.norm.contains_total THEN "zero-entry:contains_total"
+        ELSE IF o.contains_some # o.norm.contains_some THEN "zero-entry:contains_some"
+        ELSE IF o.is_empty_or_negative # o.norm.is_empty_or_negative THEN "zero-entry:is_empty_or_negative"
         ELSE "ok"
 
 ObsEvent ==
